@@ -221,6 +221,34 @@ class Gen:
         # two-descriptor end group whose only compatible descriptor has weight 0
         return "{[] [<]" + u + "[>]; [>|0|]" + r.choice(["OC", "N"]) + ", [<]" + r.choice(["[H]", "Cl"]) + " []}" + self.dist(r.choice([80, 150]))
 
+    def twin_units(self):
+        """two repeat units with the SAME text but different transition lists: a unit is what stands at its position, not its text"""
+        r = self.r
+        u = r.choice(["CC", "CC(C)", "COC", "CC(Cl)"])
+        a, b, c, d = [r.choice([0, 1, 2, 3, 5]) for _ in range(4)]
+        if a + b == 0:
+            a = 1
+        if c + d == 0:
+            d = 2
+        if (a, b) == (c, d):
+            c, d = d + 1, c
+        return r.choice(["C", "[H]", "CCOC(=O)C(C)(C)"]) + "{[>] [<]" + u + f"[>|{a} 0 {b} 0|], [<]" + u + f"[>|{c} 0 {d} 0|] [<]}}" + self.dist(r.choice([150, 300])) + \
+            r.choice(["[Br]", "F", "[H]"])
+
+    def labelled_units(self):
+        """isotope-labelled hydrogens written BEFORE the atom a descriptor binds to: RDKit keeps them as atoms of the fragment, so they count"""
+        r = self.r
+        u = r.choice(["C([2H])([2H])C([2H])([2H])", "C([2H])C", "C([3H])([2H])C(C)", "C([2H])([2H])C(c1ccccc1)"])
+        if r.random() < 0.5:
+            return r.choice(["C", "[H]"]) + "{[$] [$]" + u + "[$] [$]}" + self.dist(r.choice([60, 120])) + r.choice(["C", "O"])
+        return "[H]{[>] [<]" + u + "[>] [<]}" + self.dist(r.choice([100, 200])) + "[H]"
+
+    def mixed_id_zero(self):
+        """descriptors without id next to descriptors with the id 0 in one object: two classes that never bond with each other"""
+        r = self.r
+        return "{[] [$]" + r.choice(["CC", "CC(C)"]) + "[$], [$0]" + r.choice(["OCC", "NCC"]) + "[$0]; [$]" + r.choice(["F", "[H]"]) + ", [$0]" + r.choice(["Cl", "O"]) + " []}" + \
+            self.dist(r.choice([100, 200]))
+
     def step_growth(self):
         r = self.r
         aa = r.choice(["[<]C(=O)CCCCC(=O)[<]", "[<]C(=O)c1ccc(cc1)C(=O)[<]", "[<]OCCO[<]"])
@@ -282,7 +310,8 @@ class Gen:
         return self.r.choice(["CCO", "CCCCC", "c1ccccc1", "OCC(O)CO", "CC(=O)O", "[NH4+]", "C1CCCCC1"])
 
     ARCHETYPES = ["homopolymer", "random_copolymer", "block_copolymer", "alternating", "step_growth", "star", "graft",
-                  "end_initiated", "two_ids", "defective_list", "markov_copolymer", "list_handover", "branched_list_endgroup", "mixed_arms_handover", "chain_stopper", "lone_zero_weight"]
+                  "end_initiated", "two_ids", "defective_list", "markov_copolymer", "list_handover", "branched_list_endgroup", "mixed_arms_handover", "chain_stopper", "lone_zero_weight",
+                  "twin_units", "labelled_units", "mixed_id_zero"]
 
     def molecule(self, archetype=None):
         a = archetype or self.r.choice(self.ARCHETYPES)
